@@ -7,7 +7,7 @@ HOOKS = {
     "add_only": True,
 }
 ENGINES = [
-    {"name": "hist", "path": "/verif/mc/props", "serves_properties": ["C11"],
+    {"name": "hist", "path": "/verif/mc/props", "serves_properties": ["C09", "C11"],
      "kind_free_text": "explicit-state BFS over the real API: states rebuilt by history replay on fresh "
                        "objects, canonical form by names, invariant + reference model after every transition"},
 ]
@@ -23,5 +23,14 @@ CHECKS = {
         note="Bounded by universe size (4 resp. 6 objects) and alphabet (≤2 arguments per call); new collections "
              "created by + / Collection() are checked but not expanded; trusted: harness invariant code."),
 }
+CHECKS["C09"] = dict(
+    engine="hist", level="model_checking", design_ref="DESIGN.md §4 C09, Appendix A.1",
+    technique="explicit-state BFS of move/rotate/setter histories on real objects against a reference path model; exhaustive integer box on the padding seam",
+    text="All 404 ops (move/rotate with every input form, anchor form, start in auto,-6..6; setters; reset_path) are applied to "
+         "every state reached within depth 2 from paths of length 1..4 and compared with the reference path model after every "
+         "transition; every rotate_from_* form is compared with rotate(); 35 malformed calls must leave byte-identical state; the "
+         "padding arithmetic is enumerated on the whole box L,n in 1..24, start in auto,-60..60; path-length abstraction to fixpoint (L<=12).",
+    note="Bounded by depth (2 exact; 3 on a reduced alphabet in thorough), by path lengths 1..4 initial and fixed generic numeric values; "
+         "trusted: mc/oracles/pathmodel.py (Appendix A.1) as the reading of the documented semantics.")
 _todo = "check not built yet in this session (planned, see DESIGN.md §4); nothing is claimed for it"
 NOT_APPLICABLE = [{"property_id": f"C{i:02d}", "reason": _todo} for i in range(1, 21) if f"C{i:02d}" not in CHECKS]
